@@ -84,6 +84,7 @@ Definition eval_vpred (p : vpred) (v : val) : res bool :=
                                    | _ => Err TypeErr end                       (* lambda v: v >= 2 *)
       else if id =? 1 then Ok (is_none v)                                         (* lambda v: v is None *)
       else if id =? 2 then Err (UserErr 7)                                        (* always raises *)
+      else if id =? 3 then Ok (py_truthy v)                                       (* lambda v: v  (not a bool) *)
       else Err OtherErr
   end.
 
